@@ -36,6 +36,7 @@ type Pack struct {
 	NonBlockingSends []NonBlockingSends `json:"nonblocking_sends"`
 	DrainingSends    []DrainingSends    `json:"draining_sends"`
 	AtomicSections   []AtomicSections   `json:"atomic_sections"`
+	PanicSafeLocks   []PanicSafeLocks   `json:"panic_safe_locks"`
 	SafetyRules []string        `json:"safety_rules"` // opt-in safety rules, e.g. "map-key-hashable" (see hashable.go)
 }
 
@@ -256,6 +257,7 @@ func cmdCheck(repo, verifDir, id, tier string) int {
 	effObls = append(effObls, e.nonBlockingSendObligations(pack.NonBlockingSends)...)
 	effObls = append(effObls, e.drainingSendObligations(pack.DrainingSends)...)
 	effObls = append(effObls, e.atomicSectionObligations(pack.AtomicSections)...)
+	effObls = append(effObls, e.panicSafeLockObligations(pack.PanicSafeLocks)...)
 	all = append(all, effObls...)
 	if len(effObls) > 0 {
 		stats.add("ast-scan", 0, true)
